@@ -16,7 +16,8 @@ import (
 const Rule = "cases = (implementation, hash function, HashOpts, shuffle seed, history): churn histories (put k_i, delete k_i for fresh k_i, " +
 	"with re-insertion of old keys and lookups of absent keys) long enough to pass every table size the resize policy reaches, under " +
 	"constant / mod-3 / mod-capacity / identity / FNV hashes; fills of colliding live keys up to each load boundary followed by lookups of " +
-	"absent colliding keys; grow/shrink oscillation; each call under a 2 s watchdog, probe walks measured before every put/get/delete and " +
+	"absent colliding keys; fill / DeleteAll cycles with fresh keys below the grow threshold; initial capacities whose doubling lands " +
+	"next to the square of a prime; grow/shrink oscillation; each call under a 2 s watchdog, probe walks measured before every put/get/delete and " +
 	"compared with the Model's count; non-trivial = a probe/chain walk of length >= 3 or a resize (including same-size re-hash) occurred; " +
 	"distinct = distinct (header, op list)"
 
@@ -61,6 +62,7 @@ func genOscillate(r *hx.Rand, n, rounds int) []string {
 
 func Main(run *hx.Run) {
 	run.Stats.Rule = Rule
+	lim := c02.NewLimiter(run)
 	for _, f := range hx.CorpusFiles("C03") {
 		cs, _ := hx.ReadReplay(f)
 		for _, c := range cs {
@@ -70,16 +72,47 @@ func Main(run *hx.Run) {
 	degenerate := []string{"const", "mod3", "modm", "id", "fnv"}
 	for _, comp := range c02.Comps {
 		r := run.R.Fork(comp)
+		do := func(c hx.Case) bool {
+			run.Do(comp, c, Exec)
+			return lim.Stop(run)
+		}
+		// DeleteAll cycles with fresh keys: the slots DeleteAll leaves behind must really be free
+		for k, n := 0, run.Scale(15); k < n; k++ {
+			hdr := c02.Header(r, comp, degenerate[(k+4)%len(degenerate)])
+			if do(hx.Case{Header: hdr, Ops: c02.GenDeleteAllCycles(r, hdr, r.Range(4, 9), true)}) {
+				return
+			}
+		}
+		// capacities whose doubling lands just below the square of a prime (59 -> 118 .. 121 = 11^2,
+		// 131 -> 263 -> 526 .. 529 = 23^2): colliding keys past that size
+		if comp == "quadratic" || comp == "double" {
+			for _, cf := range [][2]int{{59, 75}, {263, 290}, {131, 290}} {
+				if cf[0] != 59 && lim.Search() {
+					continue
+				}
+				for _, hname := range []string{"const", "mod3"} {
+					hdr := fmt.Sprintf("comp=%s hash=%s cap=%d shuffle=%d", comp, hname, cf[0], r.Intn(1000))
+					n := cf[1]
+					if hname == "mod3" {
+						n = 3 * cf[1] / 2
+					}
+					if do(hx.Case{Header: hdr, Ops: genFill(r, n)}) {
+						return
+					}
+				}
+			}
+		}
 		// churn with a small resident set: the live size stays small, the number of deletes is unbounded
 		for k, n := 0, run.Scale(25); k < n; k++ {
 			hname := degenerate[k%len(degenerate)]
 			cycles := r.Range(40, 400)
-			c := hx.Case{Header: c02.Header(r, comp, hname), Ops: c02.GenChurn(r, r.Intn(20), cycles, true)}
-			run.Do(comp, c, Exec)
+			if do(hx.Case{Header: c02.Header(r, comp, hname), Ops: c02.GenChurn(r, r.Intn(20), cycles, true)}) {
+				return
+			}
 		}
 		// churn on top of a resident set that has pushed the table to a larger size
 		sizes := []int{20, 40, 80, 150}
-		if run.Thorough() {
+		if run.Thorough() && !lim.Search() {
 			sizes = []int{20, 40, 80, 150, 300, 600, 1100, 2100} // m up to 2^12 / the prime above it
 		}
 		for _, base := range sizes {
@@ -87,21 +120,24 @@ func Main(run *hx.Run) {
 				if hname == "const" && base > 700 && comp != "chain" {
 					continue // quadratic cost in the table size; the smaller sizes cover the policy
 				}
-				c := hx.Case{Header: c02.Header(r, comp, hname), Ops: c02.GenChurn(r, base, 2*base+50, true)}
-				run.Do(comp, c, Exec)
+				if do(hx.Case{Header: c02.Header(r, comp, hname), Ops: c02.GenChurn(r, base, 2*base+50, true)}) {
+					return
+				}
 			}
 		}
 		// colliding live keys up to the load boundary, then absent keys
 		for k, n := 0, run.Scale(15); k < n; k++ {
 			hname := []string{"const", "mod3", "modm"}[k%3]
-			c := hx.Case{Header: c02.Header(r, comp, hname), Ops: genFill(r, r.Range(10, 140))}
-			run.Do(comp, c, Exec)
+			if do(hx.Case{Header: c02.Header(r, comp, hname), Ops: genFill(r, r.Range(10, 140))}) {
+				return
+			}
 		}
 		// oscillation around a boundary
 		for k, n := 0, run.Scale(15); k < n; k++ {
 			hname := degenerate[r.Intn(len(degenerate))]
-			c := hx.Case{Header: c02.Header(r, comp, hname), Ops: genOscillate(r, r.Range(8, 200), r.Range(10, 60))}
-			run.Do(comp, c, Exec)
+			if do(hx.Case{Header: c02.Header(r, comp, hname), Ops: genOscillate(r, r.Range(8, 200), r.Range(10, 60))}) {
+				return
+			}
 		}
 	}
 }
